@@ -59,13 +59,58 @@ func (n *xnode) sexp() string {
 			ps = append(ps, hx([]byte(k))+"="+n.kids[i].sexp())
 		}
 		return "O(" + strings.Join(ps, ",") + ")"
-	case "R":
+	case "R", "Q":
 		var ps []string
 		for _, k := range n.kids {
 			ps = append(ps, k.sexp())
 		}
-		return "R" + n.s + "(" + strings.Join(ps, ",") + ")"
-	default: // C L I P
+		head := n.k
+		if n.k == "Q" && len(n.keys) > 0 {
+			head = "G" // grouped
+		}
+		return head + n.s + "(" + strings.Join(ps, ",") + ")"
+	case "X":
+		each := "@"
+		for _, st := range n.keys {
+			if st[0] == 'a' {
+				each = "A(" + each + "," + st[2:] + ")"
+			} else {
+				each = "I(" + each + ",N" + st[2:] + ")"
+			}
+		}
+		return "X(" + n.kids[0].sexp() + "," + each + ")"
+	case "D":
+		els := "S-"
+		if len(n.kids) > 2 {
+			els = n.kids[2].sexp()
+		}
+		return "C(" + n.kids[0].sexp() + "," + n.kids[1].sexp() + "," + els + ")"
+	case "J":
+		return "J(R" + n.s + "(" + n.kids[0].sexp() + "," + n.kids[1].sexp() + "))"
+	case "PB": // the body of a directive: always a template of its own
+		switch {
+		case len(n.kids) == 0:
+			return "S-"
+		case len(n.kids) == 1 && n.kids[0].k == "S":
+			return n.kids[0].sexp()
+		case len(n.kids) == 1:
+			return "W(" + n.kids[0].sexp() + ")"
+		}
+		var ps []string
+		for _, k := range n.kids {
+			ps = append(ps, k.sexp())
+		}
+		return "P(" + strings.Join(ps, ",") + ")"
+	case "P":
+		if len(n.kids) == 1 && (n.kids[0].k == "D" || n.kids[0].k == "J") { // a template that is one directive is not passed through
+			return "W(" + n.kids[0].sexp() + ")"
+		}
+		var ps []string
+		for _, k := range n.kids {
+			ps = append(ps, k.sexp())
+		}
+		return "P(" + strings.Join(ps, ",") + ")"
+	default: // C L I
 		var ps []string
 		for _, k := range n.kids {
 			ps = append(ps, k.sexp())
@@ -103,6 +148,8 @@ func (n *xnode) level() int {
 	case "C":
 		return 0
 	case "U":
+		return 7
+	case "X": // a traversal written after a splat continues the splat: as the base of an index / attribute it needs parentheses
 		return 7
 	}
 	return 8
@@ -182,15 +229,46 @@ func (n *xnode) src(r *gen.Rng, redundant bool) string {
 		k := n.kids[0]
 		return wrap(paren(k, k.level() < 8) + "." + n.s)
 	case "R":
-		s := "[" + sp() + "for " + n.s + " in " + n.kids[0].src(r, redundant) + " : " + n.kids[1].src(r, redundant)
+		s := "[" + sp() + "for " + strings.Replace(n.s, ":", ", ", 1) + " in " + n.kids[0].src(r, redundant) + " : " + n.kids[1].src(r, redundant)
 		if len(n.kids) > 2 {
 			s += " if " + n.kids[2].src(r, redundant)
 		}
 		return wrap(s + sp() + "]")
+	case "Q":
+		s := "{" + sp() + "for " + strings.Replace(n.s, ":", ", ", 1) + " in " + n.kids[0].src(r, redundant) + " : " + n.kids[1].src(r, redundant) + " => " + n.kids[2].src(r, redundant)
+		if len(n.keys) > 0 {
+			s += "..."
+		}
+		if len(n.kids) > 3 {
+			s += " if " + n.kids[3].src(r, redundant)
+		}
+		return wrap(s + sp() + "}")
+	case "X":
+		k := n.kids[0]
+		out := paren(k, k.level() < 8)
+		if n.s == "full" {
+			out += "[" + sp() + "*" + sp() + "]"
+		} else {
+			out += ".*"
+		}
+		for _, st := range n.keys {
+			if st[0] == 'a' {
+				out += "." + st[2:]
+			} else {
+				out += "[" + st[2:] + "]"
+			}
+		}
+		return wrap(out)
+	case "PB", "D", "J":
+		return n.tmplInner(r, redundant)
 	case "P":
 		var b strings.Builder
 		b.WriteByte('"')
 		for _, k := range n.kids {
+			if k.k == "D" || k.k == "J" {
+				b.WriteString(k.tmplInner(r, redundant))
+				continue
+			}
 			if k.k == "S" {
 				q := quoteHCL(k.s)
 				b.WriteString(q[1 : len(q)-1])
@@ -211,6 +289,46 @@ func (n *xnode) src(r *gen.Rng, redundant bool) string {
 		return wrap(b.String())
 	}
 	panic("src: " + n.k)
+}
+
+// tmplInner prints template content (no surrounding quotes): literal text, interpolations, directives.
+func (n *xnode) tmplInner(r *gen.Rng, redundant bool) string {
+	sp := func() string {
+		if redundant {
+			return strings.Repeat(" ", r.Intn(3))
+		}
+		return ""
+	}
+	switch n.k {
+	case "S":
+		q := quoteHCL(n.s)
+		return q[1 : len(q)-1]
+	case "PB":
+		var b strings.Builder
+		for _, k := range n.kids {
+			b.WriteString(k.tmplInner(r, redundant))
+		}
+		return b.String()
+	case "D":
+		out := "%{" + sp() + " if " + n.kids[0].src(r, redundant) + sp() + " }" + n.kids[1].tmplInner(r, redundant)
+		if len(n.kids) > 2 {
+			out += "%{" + sp() + " else" + sp() + " }" + n.kids[2].tmplInner(r, redundant)
+		}
+		return out + "%{" + sp() + " endif" + sp() + " }"
+	case "J":
+		return "%{" + sp() + " for " + strings.Replace(n.s, ":", ", ", 1) + " in " + n.kids[0].src(r, redundant) + sp() + " }" +
+			n.kids[1].tmplInner(r, redundant) + "%{" + sp() + " endfor" + sp() + " }"
+	case "M":
+		o, cl := "${", "}"
+		if n.s[0] == '1' {
+			o = "${~"
+		}
+		if n.s[1] == '1' {
+			cl = "~}"
+		}
+		return o + " " + sp() + n.kids[0].src(r, redundant) + sp() + " " + cl
+	}
+	return "${" + sp() + n.src(r, redundant) + sp() + "}"
 }
 
 // ---- the real parser's tree, in the same notation ----
@@ -304,11 +422,32 @@ func astSexp(e hclsyntax.Expression) string {
 	case *hclsyntax.IndexExpr:
 		return "I(" + astSexp(x.Collection) + "," + astSexp(x.Key) + ")"
 	case *hclsyntax.ForExpr:
-		s := "R" + x.ValVar + "(" + astSexp(x.CollExpr) + "," + astSexp(x.ValExpr)
+		vars := x.ValVar
+		if x.KeyVar != "" {
+			vars = x.KeyVar + ":" + x.ValVar
+		}
+		head := "R"
+		if x.KeyExpr != nil {
+			head = "Q"
+			if x.Group {
+				head = "G"
+			}
+		}
+		s := head + vars + "(" + astSexp(x.CollExpr)
+		if x.KeyExpr != nil {
+			s += "," + astSexp(x.KeyExpr)
+		}
+		s += "," + astSexp(x.ValExpr)
 		if x.CondExpr != nil {
 			s += "," + astSexp(x.CondExpr)
 		}
 		return s + ")"
+	case *hclsyntax.SplatExpr:
+		return "X(" + astSexp(x.Source) + "," + astSexp(x.Each) + ")"
+	case *hclsyntax.AnonSymbolExpr:
+		return "@"
+	case *hclsyntax.TemplateJoinExpr:
+		return "J(" + astSexp(x.Tuple) + ")"
 	case *hclsyntax.TemplateExpr:
 		// a quoted string without interpolation is a template of one literal (or of none)
 		if len(x.Parts) == 0 {
@@ -318,6 +457,7 @@ func astSexp(e hclsyntax.Expression) string {
 			if l, ok := x.Parts[0].(*hclsyntax.LiteralValueExpr); ok && l.Val.Type() == cty.String {
 				return ctyLit(l.Val)
 			}
+			return "W(" + astSexp(x.Parts[0]) + ")" // one part that is not a literal and was not passed through: still a string template
 		}
 		var ps []string
 		for _, k := range x.Parts {
@@ -422,12 +562,18 @@ func (v *xval) str() string {
 			ps = append(ps, k.str())
 		}
 		return "l(" + strings.Join(ps, ",") + ")"
-	case "o":
+	case "o", "m":
 		var ps []string
 		for i, k := range v.keys {
 			ps = append(ps, hx([]byte(k))+"="+v.kids[i].str())
 		}
-		return "o(" + strings.Join(ps, ",") + ")"
+		return v.k + "(" + strings.Join(ps, ",") + ")"
+	case "L":
+		var ps []string
+		for _, k := range v.kids {
+			ps = append(ps, k.str())
+		}
+		return "L(" + strings.Join(ps, ",") + ")"
 	}
 	return v.k
 }
@@ -457,6 +603,21 @@ func (v *xval) cty() cty.Value {
 			m[k] = v.kids[i].cty()
 		}
 		return cty.ObjectVal(m)
+	case "L": // a list-typed value: elements of one type, at least one
+		var es []cty.Value
+		for _, k := range v.kids {
+			es = append(es, k.cty())
+		}
+		return cty.ListVal(es)
+	case "m": // a map-typed value
+		m := map[string]cty.Value{}
+		for i, k := range v.keys {
+			m[k] = v.kids[i].cty()
+		}
+		if len(m) == 0 {
+			return cty.MapValEmpty(cty.Number)
+		}
+		return cty.MapVal(m)
 	}
 	panic("cty")
 }
@@ -524,9 +685,36 @@ func runC18(c *Ctx) {
 		add("any", genVal(2))
 		ob := &xval{k: "o", keys: []string{"a", "name"}, kids: []*xval{{k: "n", s: num()}, {k: "s", s: gen.Pick(r, strs)}}}
 		add("obj", ob)
+		// a tuple of objects, a list-typed and a map-typed value, a tuple of strings
+		objs := &xval{k: "l"}
+		for i := 0; i < r.Intn(4); i++ {
+			o := &xval{k: "o", keys: []string{"a", "name"}, kids: []*xval{{k: "n", s: fmt.Sprint(r.Intn(4))}, {k: "s", s: gen.Pick(r, []string{"x", "y", "x y", "5"})}}}
+			if r.Chance(1, 6) {
+				o = &xval{k: "o", keys: []string{"name"}, kids: []*xval{{k: "s", s: "only-name"}}} // lacks .a
+			}
+			objs.kids = append(objs.kids, o)
+		}
+		add("objs", objs)
+		lst := &xval{k: "L"}
+		for i := 0; i < 1+r.Intn(3); i++ {
+			lst.kids = append(lst.kids, &xval{k: "n", s: fmt.Sprint(r.Intn(9))})
+		}
+		add("lst", lst)
+		mp := &xval{k: "m"}
+		for _, key := range []string{"a", "b", "zz"}[:r.Intn(4)] {
+			mp.keys = append(mp.keys, key)
+			mp.kids = append(mp.kids, &xval{k: "n", s: fmt.Sprint(r.Intn(9))})
+		}
+		add("mp", mp)
+		ss := &xval{k: "l"}
+		for i := 0; i < r.Intn(4); i++ {
+			ss.kids = append(ss.kids, &xval{k: "s", s: gen.Pick(r, []string{"p", "q", "p", " r "})})
+		}
+		add("strs", ss)
 		return e
 	}
-	var genNum, genBool, genStr, genAny func(d int) *xnode
+	var genNum, genBool, genStr, genAny, genColl func(d int) *xnode
+	var collVar func() *xnode
 	leafNum := func() *xnode {
 		if r.Chance(1, 3) {
 			return &xnode{k: "V", s: gen.Pick(r, []string{"n1", "n2"})}
@@ -587,6 +775,27 @@ func runC18(c *Ctx) {
 					continue
 				}
 				n.kids = append(n.kids, &xnode{k: "S", s: s})
+			} else if r.Chance(1, 4) { // a directive
+				branch := func() *xnode {
+					b := &xnode{k: "PB"}
+					for j := 0; j < r.Intn(3); j++ {
+						if r.Bool() && (len(b.kids) == 0 || b.kids[len(b.kids)-1].k != "S") {
+							b.kids = append(b.kids, &xnode{k: "S", s: gen.Pick(r, []string{"a", "yes ", " no", "-", "x y"})})
+						} else {
+							b.kids = append(b.kids, gen.Pick(r, []*xnode{{k: "V", s: "s1"}, {k: "V", s: "n1"}, {k: "V", s: "v"}, {k: "V", s: "b1"}, {k: "V", s: "nums"}}))
+						}
+					}
+					return b
+				}
+				if r.Bool() {
+					dn := &xnode{k: "D", kids: []*xnode{genBool(d - 1), branch()}}
+					if r.Bool() {
+						dn.kids = append(dn.kids, branch())
+					}
+					n.kids = append(n.kids, dn)
+				} else {
+					n.kids = append(n.kids, &xnode{k: "J", s: gen.Pick(r, []string{"v", "k:v"}), kids: []*xnode{collVar(), branch()}})
+				}
 			} else {
 				k := gen.Pick(r, []func(int) *xnode{genNum, genBool, genStr, genAny})(d - 1)
 				if k.k != "S" && r.Chance(1, 3) { // a string literal as a part is literal text, never an interpolation
@@ -614,6 +823,138 @@ func runC18(c *Ctx) {
 			return n.kids[0]
 		}
 		return n
+	}
+	// splats and for-expressions over every kind of collection
+	collVar = func() *xnode {
+		return &xnode{k: "V", s: gen.Pick(r, []string{"nums", "objs", "objs", "obj", "lst", "mp", "strs", "n1", "s1", "any"})}
+	}
+	genColl = func(d int) *xnode {
+		// type-directed: the collection decides which element expressions make sense; 1 in 5 is deliberately loose
+		type collT struct {
+			name  string
+			elem  string // n s o (object with a, name) x (mixed)
+			keyed bool   // iterating yields string keys
+		}
+		colls := []collT{{"nums", "n", false}, {"lst", "n", false}, {"objs", "o", false}, {"strs", "s", false}, {"obj", "x", true}, {"mp", "n", true}}
+		ct := gen.Pick(r, colls)
+		loose := r.Chance(1, 5)
+		src := &xnode{k: "V", s: ct.name}
+		if loose {
+			src = collVar()
+			if r.Chance(1, 6) {
+				src = &xnode{k: "Z"}
+			}
+		}
+		elemExprs := func(vv string) []*xnode {
+			v := func() *xnode { return &xnode{k: "V", s: vv} }
+			switch {
+			case loose:
+				return []*xnode{v(), {k: "A", s: gen.Pick(r, []string{"a", "name", "nope"}), kids: []*xnode{v()}}, {k: "B", s: "add", kids: []*xnode{v(), genNum(0)}},
+					{k: "P", kids: []*xnode{{k: "S", s: "<"}, v(), {k: "S", s: ">"}}}}
+			case ct.elem == "n":
+				return []*xnode{v(), {k: "B", s: gen.Pick(r, []string{"add", "mul", "sub"}), kids: []*xnode{v(), genNum(0)}}, {k: "P", kids: []*xnode{{k: "S", s: "<"}, v(), {k: "S", s: ">"}}},
+					{k: "C", kids: []*xnode{{k: "B", s: "lt", kids: []*xnode{v(), genNum(0)}}, v(), {k: "N", s: "0"}}}}
+			case ct.elem == "s":
+				return []*xnode{v(), {k: "P", kids: []*xnode{v(), {k: "S", s: "!"}}}, {k: "B", s: "eq", kids: []*xnode{v(), {k: "S", s: "p"}}}}
+			case ct.elem == "o":
+				return []*xnode{v(), {k: "A", s: "a", kids: []*xnode{v()}}, {k: "A", s: "name", kids: []*xnode{v()}},
+					{k: "P", kids: []*xnode{{k: "A", s: "name", kids: []*xnode{v()}}, {k: "S", s: "="}, {k: "A", s: "a", kids: []*xnode{v()}}}}}
+			}
+			return []*xnode{v(), {k: "P", kids: []*xnode{{k: "S", s: "v="}, v()}}}
+		}
+		keyExprs := func(kv, vv string) []*xnode {
+			v := func() *xnode { return &xnode{k: "V", s: vv} }
+			var out []*xnode
+			if kv != "" {
+				out = append(out, &xnode{k: "V", s: kv}, &xnode{k: "P", kids: []*xnode{{k: "S", s: "k-"}, {k: "V", s: kv}}})
+			}
+			switch {
+			case loose:
+				out = append(out, v(), &xnode{k: "Z"}, &xnode{k: "A", s: "name", kids: []*xnode{v()}})
+			case ct.elem == "n":
+				out = append(out, v(), &xnode{k: "B", s: "mod", kids: []*xnode{v(), {k: "N", s: "2"}}}, &xnode{k: "P", kids: []*xnode{{k: "S", s: "n"}, v()}})
+			case ct.elem == "s":
+				out = append(out, v())
+			case ct.elem == "o":
+				out = append(out, &xnode{k: "A", s: "name", kids: []*xnode{v()}}, &xnode{k: "A", s: "a", kids: []*xnode{v()}})
+			default:
+				out = append(out, &xnode{k: "S", s: "same"})
+			}
+			return out
+		}
+		conds := func(kv, vv string) []*xnode {
+			v := func() *xnode { return &xnode{k: "V", s: vv} }
+			out := []*xnode{{k: "T"}, {k: "F"}, {k: "V", s: "b1"}}
+			switch {
+			case ct.elem == "n" || loose:
+				out = append(out, &xnode{k: "B", s: gen.Pick(r, []string{"lt", "ge", "ne", "eq"}), kids: []*xnode{v(), genNum(0)}})
+			case ct.elem == "s":
+				out = append(out, &xnode{k: "B", s: "ne", kids: []*xnode{v(), {k: "S", s: "p"}}})
+			case ct.elem == "o":
+				out = append(out, &xnode{k: "B", s: "gt", kids: []*xnode{{k: "A", s: "a", kids: []*xnode{v()}}, {k: "N", s: "1"}}})
+			}
+			if kv != "" {
+				out = append(out, &xnode{k: "B", s: "ne", kids: []*xnode{{k: "V", s: kv}, gen.Pick(r, []*xnode{{k: "N", s: "0"}, {k: "S", s: "a"}})}})
+			}
+			return out
+		}
+		switch k := r.Intn(10); {
+		case k < 3: // splat
+			n := &xnode{k: "X", s: gen.Pick(r, []string{"full", "full", "attr"}), kids: []*xnode{src}}
+			switch {
+			case loose:
+				for i := 0; i < r.Intn(3); i++ {
+					if n.s == "full" && r.Chance(1, 4) {
+						n.keys = append(n.keys, "i:"+fmt.Sprint(r.Intn(2)))
+					} else {
+						n.keys = append(n.keys, "a:"+gen.Pick(r, []string{"a", "name", "name", "nope"}))
+					}
+				}
+			case ct.elem == "o" || ct.name == "obj":
+				if r.Chance(3, 4) {
+					n.keys = append(n.keys, "a:"+gen.Pick(r, []string{"a", "name"}))
+				}
+			case ct.name == "mp":
+				if r.Bool() {
+					n.keys = append(n.keys, "a:"+gen.Pick(r, []string{"a", "b", "zz"}))
+				}
+			}
+			c.Count("coll.splat")
+			return n
+		case k < 6: // tuple for, with or without the key
+			vars := gen.Pick(r, []string{"v", "k:v", "i:x"})
+			vv := vars[strings.IndexByte(vars, ':')+1:]
+			kv := ""
+			if i := strings.IndexByte(vars, ':'); i > 0 {
+				kv = vars[:i]
+			}
+			body := gen.Pick(r, elemExprs(vv))
+			if kv != "" && r.Bool() {
+				body = &xnode{k: "L", kids: []*xnode{{k: "V", s: kv}, body}}
+			}
+			f := &xnode{k: "R", s: vars, kids: []*xnode{src, body}}
+			if r.Chance(1, 3) {
+				f.kids = append(f.kids, gen.Pick(r, conds(kv, vv)))
+			}
+			c.Count("coll.for-tuple")
+			return f
+		default: // object for, with grouping or without
+			vars := gen.Pick(r, []string{"v", "k:v"})
+			vv := vars[strings.IndexByte(vars, ':')+1:]
+			kv := ""
+			if i := strings.IndexByte(vars, ':'); i > 0 {
+				kv = vars[:i]
+			}
+			f := &xnode{k: "Q", s: vars, kids: []*xnode{src, gen.Pick(r, keyExprs(kv, vv)), gen.Pick(r, elemExprs(vv))}}
+			if r.Chance(1, 2) {
+				f.keys = []string{"g"}
+			}
+			if r.Chance(1, 4) {
+				f.kids = append(f.kids, gen.Pick(r, conds(kv, vv)))
+			}
+			c.Count("coll.for-object")
+			return f
+		}
 	}
 	genAny = func(d int) *xnode {
 		switch k := r.Intn(14); {
@@ -645,7 +986,10 @@ func runC18(c *Ctx) {
 			}
 			return f
 		case k < 12:
-			return &xnode{k: "V", s: gen.Pick(r, []string{"any", "obj", "nums", "missing"})}
+			if d > 0 && r.Chance(2, 3) {
+				return genColl(d)
+			}
+			return &xnode{k: "V", s: gen.Pick(r, []string{"any", "obj", "nums", "missing", "objs", "lst", "mp", "strs"})}
 		case k < 13 && d > 0: // deliberately loosely typed
 			return &xnode{k: "B", s: gen.Pick(r, []string{"add", "lt", "and", "eq"}), kids: []*xnode{genAny(d - 1), genAny(d - 1)}}
 		default:
@@ -662,14 +1006,41 @@ func runC18(c *Ctx) {
 	for c.Lines < c.N {
 		env := mkEnv()
 		var t *xnode
-		switch r.Intn(4) {
-		case 0:
+		switch r.Intn(13) {
+		case 12: // exact arithmetic on literals and variables that need more than 64 bits together
+			var big func(d int) *xnode
+			big = func(d int) *xnode {
+				if d <= 0 {
+					if r.Chance(1, 4) {
+						return &xnode{k: "V", s: gen.Pick(r, []string{"n1", "n2"})}
+					}
+					return &xnode{k: "N", s: gen.Pick(r, bigNums[7:])}
+				}
+				return &xnode{k: "B", s: gen.Pick(r, []string{"mul", "mul", "add", "sub"}), kids: []*xnode{big(d - 1), big(d - 1)}}
+			}
+			t = big(1 + r.Intn(2))
+			if r.Chance(1, 3) {
+				t = &xnode{k: "B", s: gen.Pick(r, []string{"eq", "lt", "mod"}), kids: []*xnode{t, big(1)}}
+			}
+			c.Count("root.bigarith")
+		case 4, 5, 6, 7:
+			t = genColl(2)
+			if r.Chance(1, 3) { // used inside something else
+				t = gen.Pick(r, []*xnode{
+					{k: "I", kids: []*xnode{t, {k: "N", s: "0"}}},
+					{k: "B", s: "eq", kids: []*xnode{t, genAny(1)}},
+					{k: "L", kids: []*xnode{t, genNum(0)}},
+					{k: "P", kids: []*xnode{{k: "S", s: "r="}, t}},
+				})
+			}
+			c.Count("root.collection")
+		case 0, 8:
 			t = genNum(2 + r.Intn(3))
 			c.Count("root.number")
-		case 1:
+		case 1, 9:
 			t = genBool(2 + r.Intn(3))
 			c.Count("root.bool")
-		case 2:
+		case 2, 10:
 			t = genStr(2 + r.Intn(2))
 			c.Count("root.template")
 		default:
@@ -703,8 +1074,8 @@ func parseXval(s string) (*xval, string) {
 			i++
 		}
 		return &xval{k: "s", s: string(unhx(orDash(s[1:i])))}, s[i:]
-	case 'l':
-		v := &xval{k: "l"}
+	case 'l', 'L':
+		v := &xval{k: s[:1]}
 		rest := s[2:]
 		for rest[0] != ')' {
 			var k *xval
@@ -715,8 +1086,8 @@ func parseXval(s string) (*xval, string) {
 			}
 		}
 		return v, rest[1:]
-	case 'o':
-		v := &xval{k: "o"}
+	case 'o', 'm':
+		v := &xval{k: s[:1]}
 		rest := s[2:]
 		for rest[0] != ')' {
 			eq := strings.IndexByte(rest, '=')
